@@ -475,11 +475,13 @@ func c19Keys(res *fw.CaseResult, rng *rand.Rand) {
 		for _, s := range []byte{'i', 'd'} {
 			k := pointstore.PointKey(u, s)
 			res.Eval(true, "pointkey", u.String(), s)
-			if len(k) != 18 || k[0] != 'p' || k[17] != s || !bytes.Equal(k[1:17], u[:]) {
-				res.Violate("pointkey", "pointkey:layout", fmt.Sprintf("PointKey(%s,%q) = %x", u, s, k), nil)
-			}
+			// there is no decoder for point keys in the repository, so faithfulness is judged as
+			// injectivity over (uuid, suffix); the byte layout itself is not part of the statement
 			if prev, ok := pseen[string(k)]; ok && prev != u {
 				res.Violate("key-collision", "pointkey:collision", fmt.Sprintf("%s and %s", prev, u), nil)
+			}
+			if s == 'd' && bytes.Equal(k, pointstore.PointKey(u, 'i')) {
+				res.Violate("key-collision", "pointkey:suffix-collision", fmt.Sprintf("PointKey(%s) is the same for suffixes i and d", u), nil)
 			}
 			pseen[string(k)] = u
 			if _, ok := conversion.NodeIdFromKey(k, s); ok {
